@@ -12,6 +12,9 @@ S3  count += 1 and lastseen := timestamp are executed exactly once on every path
     call; firstseen is written only by StateVectors::new.
 S4  frozen table (spec/mutators.json) of every direct use of Jet1090.state_vectors, of every writer
     of a Snapshot field and of every mutator of an entry's history.
+S5  update_snapshot edits the record before it is shown (registers matched as both BDS 5,0 and BDS 6,0 are cleared).  Every
+    read of an edited field whose value reaches the entry happens after the edit: no CFG path leads from such a read
+    (a place read, a borrow, or a call handed a covering reference whose callee reads the field) to a store into that field.
 S1 + S2 + S4 give the interleaving clause: an entry is a function of the records that carry its key.
 """
 import json
@@ -270,6 +273,8 @@ def run(prog, rep, tier):
                 lbi, ls, lrt = lastseens[0]
                 ok = every_after(body, ibi, lbi) and lrt <= {'msg'} and lrt
             rep.check(ok, 'S3-lastseen', 'update_snapshot#lastseen', site, 'cur.lastseen is not set from the record\'s timestamp on every path after the entry call')
+        if label == 'update_snapshot':
+            record_edit_order(prog, rep, body, Aset, label)
         rep.check(not firsts, 'S3-firstseen', label + '#firstseen', site, 'firstseen is written outside StateVectors::new')
     # ---- S4
     seen = {}
@@ -397,3 +402,234 @@ def is_increment(body, s):
                 l, r = s2['rv']['l'], s2['rv']['r']
                 return r['k'] == 'const' and r['v'].get('int') == '1' and l['k'] in ('copy', 'move') and l['pl'] == s['pl']
     return False
+
+
+# ---------------------------------------------------------------------------------------------------------------
+# S5: values that reach the entry are read from the record as it is shown (after update_snapshot's own edits of it)
+
+def _nm(name):
+    return name[8:] if name and name.startswith('rs1090::') else name
+
+
+def _record_type(name):
+    return bool(name) and _nm(name).startswith('decode::')
+
+
+def _field_keys(prog, body, pl):
+    return [(_nm(x[0]), x[2]) for x in D.place_steps(prog, body, pl) if _record_type(x[0])]
+
+
+def _contains(prog, ty, pname, memo, depth=0):
+    """does a value of type `ty` (through references, Option/Vec arguments and fields) contain the ADT named pname"""
+    if ty is None or depth > 12:
+        return False
+    if ty in memo:
+        return memo[ty]
+    memo[ty] = False
+    t = prog.types[ty]
+    r = False
+    if t['k'] in ('ref', 'ptr'):
+        r = _contains(prog, t['to'], pname, memo, depth + 1)
+    elif t['k'] in ('slice', 'array'):
+        r = _contains(prog, t['elem'], pname, memo, depth + 1)
+    elif t['k'] == 'tuple':
+        r = any(_contains(prog, x, pname, memo, depth + 1) for x in t.get('elems') or t.get('args') or [])
+    elif t['k'] == 'adt':
+        if _nm(t['name']) == pname:
+            r = True
+        else:
+            r = any(_contains(prog, x, pname, memo, depth + 1) for x in (t.get('args') or []))
+            if not r:
+                for v in t.get('variants') or []:
+                    if any(_contains(prog, f.get('ty'), pname, memo, depth + 1) for f in v['fields']):
+                        r = True
+                        break
+    memo[ty] = r
+    return r
+
+
+def _body_summaries(prog):
+    """per workspace body: record fields it reads / writes directly, and its workspace callees"""
+    reads, writes, calls = {}, {}, {}
+    for b in prog.bodies.values():
+        rd, wr, cs = set(), set(), set()
+        for bb in b['blocks']:
+            for s in bb['s']:
+                if s['k'] != 'assign':
+                    continue
+                ks = _field_keys(prog, b, s['pl'])
+                if ks:
+                    wr.add(ks[-1])
+                for pl in D.rvalue_places(s['rv']):
+                    rd.update(_field_keys(prog, b, pl))
+            t = bb['t']
+            if t and t['k'] == 'call':
+                for a in t['args']:
+                    if a['k'] in ('copy', 'move'):
+                        rd.update(_field_keys(prog, b, a['pl']))
+                if t['callee']:
+                    tgt = t['callee'].get('rdid')
+                    if tgt in prog.bodies:
+                        cs.add(tgt)
+        reads[b['id']], writes[b['id']], calls[b['id']] = rd, wr, cs
+    return reads, writes, calls
+
+
+def _closure(start, direct, calls):
+    out, seen, work = set(), set(), [start]
+    while work:
+        x = work.pop()
+        if x in seen:
+            continue
+        seen.add(x)
+        out |= direct.get(x, set())
+        work.extend(calls.get(x, ()))
+    return out
+
+
+def record_edit_order(prog, rep, body, Aset, label):
+    reads_d, writes_d, calls = _body_summaries(prog)
+    memo = {}
+    site0 = '%s:%s' % (body['file'], body['line'])
+
+    def arg_covers(a, key):
+        if a['k'] not in ('copy', 'move'):
+            return False
+        steps = D.place_steps(prog, body, a['pl'])
+        ty = steps[-1][3] if steps and a['pl']['p'] and a['pl']['p'][-1][0] == 'field' else (body['locals'][a['pl']['l']] if not a['pl']['p'] else None)
+        return ty is not None and _contains(prog, ty, key[0], memo.setdefault(key[0], {}))
+
+    def is_entry_place(pl):
+        return pl['l'] in Aset
+    # locals that are (references to) parts of the record handed to update_snapshot
+    REC = set()
+
+    def in_record(pl):
+        if pl['l'] in REC:
+            return True
+        return pl['l'] == 1 and bool(pl['p']) and pl['p'][0][0] == 'field' and pl['p'][0][1] == 1
+    changed = True
+    while changed:
+        changed = False
+        for bb in body['blocks']:
+            for s in bb['s']:
+                if s['k'] == 'assign' and not s['pl']['p'] and s['pl']['l'] not in REC:
+                    rv = s['rv']
+                    src = rv['pl'] if rv['k'] in ('ref', 'rawptr') else (rv['op']['pl'] if rv['k'] in ('use', 'cast') and rv['op']['k'] in ('copy', 'move') else None)
+                    if src is not None and in_record(src) and prog.types[body['locals'][s['pl']['l']]]['k'] in ('ref', 'ptr'):
+                        REC.add(s['pl']['l'])
+                        changed = True
+            t = bb['t']
+            if t and t['k'] == 'call' and t['callee'] and t['callee'].get('item') in ('as_ref', 'as_mut', 'deref', 'deref_mut', 'borrow', 'borrow_mut', 'unwrap', 'expect', 'as_deref', 'as_deref_mut') \
+                    and t['args'] and t['args'][0]['k'] in ('copy', 'move') and in_record(t['args'][0]['pl']) and t['dest']['l'] not in REC and not t['dest']['p']:
+                REC.add(t['dest']['l'])
+                changed = True
+    # W: stores into a record field (directly, or by a callee handed a mutable covering reference)
+    W = []
+    for bi, bb in enumerate(body['blocks']):
+        for si, s in enumerate(bb['s']):
+            if s['k'] == 'assign' and s['pl']['p'] and not is_entry_place(s['pl']):
+                ks = _field_keys(prog, body, s['pl'])
+                if ks and in_record(s['pl']):
+                    W.append((bi, si, ks[-1], s.get('sp')))
+        t = bb['t']
+        if t and t['k'] == 'call' and t['callee'] and t['callee'].get('rdid') in prog.bodies:
+            for key in _closure(t['callee']['rdid'], writes_d, calls):
+                for a in t['args']:
+                    if a['k'] in ('copy', 'move') and not is_entry_place(a['pl']):
+                        ty = prog.types[body['locals'][a['pl']['l']]]
+                        if not a['pl']['p'] and ty['k'] == 'ref' and ty.get('mut') and in_record(a['pl']) and arg_covers(a, key):
+                            W.append((bi, len(bb['s']), key, t.get('sp')))
+    keys = sorted(set(w[2] for w in W))
+    # sinks: what reaches the entry
+    def sink_locals():
+        out = []
+        for bi, bb in enumerate(body['blocks']):
+            for s in bb['s']:
+                if s['k'] == 'assign' and is_entry_place(s['pl']) and any(e[0] == 'deref' for e in s['pl']['p']):
+                    out.append((set(p['l'] for p in D.rvalue_places(s['rv'])), '%s:%s' % (body['file'], s.get('sp'))))
+            t = bb['t']
+            if t and t['k'] == 'call' and any(a['k'] in ('copy', 'move') and is_entry_place(a['pl']) for a in t['args']):
+                out.append((set(a['pl']['l'] for a in t['args'] if a['k'] in ('copy', 'move') and not is_entry_place(a['pl'])), '%s:%s' % (body['file'], t.get('sp'))))
+        return out
+    sinks = sink_locals()
+
+    def reach(l0):
+        R = {l0}
+        changed = True
+        while changed:
+            changed = False
+            for bb in body['blocks']:
+                for s in bb['s']:
+                    if s['k'] == 'assign' and s['pl']['l'] not in R and not is_entry_place(s['pl']):
+                        if any(p['l'] in R for p in D.rvalue_places(s['rv'])):
+                            R.add(s['pl']['l'])
+                            changed = True
+                t = bb['t']
+                if t and t['k'] == 'call' and any(a['k'] in ('copy', 'move') and a['pl']['l'] in R for a in t['args']):
+                    if t['dest']['l'] not in R and not is_entry_place(t['dest']):
+                        R.add(t['dest']['l'])
+                        changed = True
+        return R
+    # R: reads of record fields whose value reaches the entry
+    reads = []
+    for bi, bb in enumerate(body['blocks']):
+        for si, s in enumerate(bb['s']):
+            if s['k'] == 'assign' and not is_entry_place(s['pl']):
+                ks = set()
+                for pl in D.rvalue_places(s['rv']):
+                    if in_record(pl):
+                        ks.update(_field_keys(prog, body, pl))
+                if ks:
+                    reads.append((bi, si, ks, s['pl']['l'], s.get('sp'), None))
+            elif s['k'] == 'assign' and is_entry_place(s['pl']):
+                ks = set()
+                for pl in D.rvalue_places(s['rv']):
+                    if in_record(pl):
+                        ks.update(_field_keys(prog, body, pl))
+                if ks:
+                    reads.append((bi, si, ks, None, s.get('sp'), None))
+        t = bb['t']
+        if t and t['k'] == 'call':
+            ks = set()
+            for a in t['args']:
+                if a['k'] in ('copy', 'move') and in_record(a['pl']):
+                    ks.update(_field_keys(prog, body, a['pl']))
+            tgt = t['callee'].get('rdid') if t['callee'] else None
+            callee_reads = _closure(tgt, reads_d, calls) if tgt in prog.bodies else None
+            for key in keys:
+                if any(a['k'] in ('copy', 'move') and in_record(a['pl']) and arg_covers(a, key) for a in t['args']) and (callee_reads is None or key in callee_reads):
+                    ks.add(key)
+            if ks:
+                direct = any(a['k'] in ('copy', 'move') and is_entry_place(a['pl']) for a in t['args'])
+                reads.append((bi, len(bb['s']), ks, None if direct else t['dest']['l'], t.get('sp'), (t['callee'] or {}).get('name')))
+    flowing = []
+    cache = {}
+    for bi, si, ks, dl, sp, via in reads:
+        if dl is None:
+            flowing.append((bi, si, ks, sp, via))
+            continue
+        if dl not in cache:
+            R = reach(dl)
+            cache[dl] = any(ls & R for ls, _ in sinks)
+        if cache[dl]:
+            flowing.append((bi, si, ks, sp, via))
+    rep.floor('reads of the record whose value reaches the entry in update_snapshot', len(flowing), 20)
+    bad = []
+    for bi, si, ks, sp, via in flowing:
+        for wbi, wsi, key, wsp in W:
+            if key not in ks:
+                continue
+            before = (bi == wbi and si < wsi) or (wbi in set().union(*[D.reachable(body, s_) for s_ in D.succs(body['blocks'][bi]['t'])] or [set()]) and bi != wbi)
+            if before:
+                bad.append((key, sp, wsp, via))
+    if not keys:
+        rep.check(True, 'S5-shown-record', label + '#no-edit', site0, 'update_snapshot does not edit the record', nontrivial=False)
+    for key in keys:
+        b_ = sorted(set((sp, wsp, via) for k, sp, wsp, via in bad if k == key), key=str)
+        nreads = sum(1 for _, _, ks, _, _ in flowing if key in ks)
+        rep.check(not b_, 'S5-shown-record', '%s#edit#%s.%s' % (label, key[0].split('::')[-1], key[1]), site0,
+                  'the field %s.%s is cleared at line %s after it was read at line %s%s, and that earlier value reaches the aircraft entry: the table would hold a '
+                  'value the shown record does not contain' % (key[0].split('::')[-1], key[1], b_[0][1] if b_ else '?', b_[0][0] if b_ else '?',
+                                                             (' (through %s)' % b_[0][2]) if b_ and b_[0][2] else ''),
+                  sample={'field': '%s.%s' % key, 'stores': sum(1 for w in W if w[2] == key), 'reads_reaching_entry': nreads})
